@@ -583,7 +583,10 @@ def web_wiring():
     other = norm(head) + '|' + norm(tail)
     scope.append(('around', other))
     ab = fn_block(mod, 'api_scope')
-    services = [norm(a) for n, a in chain_calls(ab[ab.index('web::scope'):]) if n == 'service']
+    # every `.service(path::to::service)` of api_scope(), in textual order (whether they are chained on the scope, registered in
+    # a loop over a fixed array, or through a local)
+    services = re.findall(r'\.service\(\s*([\w:]+)\s*\)', ab)
+    if not re.search(r'web::scope\(\s*""\s*\)', ab): raise PE('api_scope: not the root scope')
     idx = re.search(r'#\[(get|post)\("([^"]*)"\)\]\s*async\s+fn\s+index', lib)
     index = (idx.group(1).upper(), idx.group(2)) if idx else ('?', '?')
     return new_w, scope, services, index
